@@ -914,7 +914,7 @@ class Machine:
                 g[A[1]] = v.map((lambda x: (x << n) & M64) if op == 'SHLQ' else (lambda x: x >> n), 64)
             else:
                 g[A[1]] = simp(v << n if op == 'SHLQ' else z3.LShR(v, n))
-            self.flags = None
+            self.flags = ('result', g[A[1]], 64) if n else self.flags      # ZF/SF follow the shifted value (CF/OF not modelled)
             return None
         # ---- generic integer layer (not used by the current tree; a changed tree may use it): narrow ALU forms, unary
         # operators, tests, zero/sign extension, shifts and rotates by an immediate, byte swaps.  Values are ints, z3
